@@ -36,6 +36,7 @@ LOCKCLS = lambda c: c.endswith('scoped_lock')   # noqa: E731
 def run(facts, rep):
     d5_handler_task_picked_up(facts, rep)
     d1_batch_flags_only_raised(facts, rep)
+    d1_ending_a_reservation_restarts_forwarding(facts, rep)
     d1_handlers(facts, rep)
     d1_handler_survives_user_exceptions(facts, rep)
     d2_serial(facts, rep)
@@ -802,3 +803,54 @@ def d1_handler_survives_user_exceptions(facts, rep):
            '%d of %d handler instantiations copy user data outside any try block (%s ...) and start_handle_operations lowers handler_busy only on '
            'the normal path: when the copy of a message throws inside the handler, every later operation on that node spins for ever'
            % (len(examples), n, ', '.join(sorted(set(examples))[:3])), key_extra='handler-busy')
+
+
+def d1_ending_a_reservation_restarts_forwarding(facts, rep):
+    """While the front item of a buffering node is reserved the node does not forward (the forwarder stops at a reserved
+    buffer).  The operation that ends the reservation - release or consume, i.e. whatever stores false into my_reserved - is the
+    only event that can start it again: inside the aggregator handler every call that (transitively, within the node's own
+    classes) clears my_reserved is followed, before the handler advances to the next operation, by raising the batch flag that
+    requests a forwarding task.  Otherwise an item that was kept because it was reserved, or that arrived / became forwardable
+    while the reservation was held, is never offered again ("a message that a successor rejects is kept and offered again")."""
+    from rules.common import handler_iterations
+    from engine.rules import Summaries
+    summ = Summaries(facts, max_depth=4)
+
+    def clears_reservation(g, pos, e):
+        if not isinstance(e, int):
+            return False
+        nd = g.nodes[e]
+        return nd.get('k') == 'binop' and nd.get('op') == '=' and last_member(g, nd['l']) == 'my_reserved' and g.cv(nd['r']) == 0
+    n = 0
+    for fn in sorted(facts.fns.values(), key=lambda f: f.q):
+        if not (fn.cls or '').startswith(D2 + 'buffer_node') or not fn.p.endswith('handle_operations_impl'):
+            continue
+        its = handler_iterations(fn)
+        if not its:
+            continue
+        adv = its[0][0]
+        # the batch flags: bool locals initialised to false in front of the loop
+        reached, ex, par = fn.walk(adv)
+        loop = set(q for q in reached if fn.can_reach(q, adv))
+        flags = set()
+        for pos, sx, nd in fn.stmt_elems(('decl',)):
+            for v in nd['vars']:
+                if v.get('ty') == 'bool' and 'init' in v and fn.cv(v['init']) == 0 and pos not in loop:
+                    flags.add(v['v'])
+        raises = set(p for p, s_, l, r in assignments(fn) if fn.n(fn.strip(l)).get('k') == 'var' and fn.n(fn.strip(l)).get('v') in flags and fn.cv(r) == 1)
+        for pos, s_, node, d in calls(fn):
+            if pos not in loop:
+                continue
+            g = facts.fns.get(node.get('fn'))
+            if g is None or not (g.cls or '').startswith(D2):
+                continue
+            if not summ.may(g, 'clears-my_reserved', clears_reservation):
+                continue
+            n += 1
+            ok, wit = every_path_passes(fn, pos, lambda q, e: q in raises, end=adv)
+            rep.ob('D1', 'K3', fn, 'an operation that ends a reservation requests forwarding (%s)' % (d or {}).get('n'), ok,
+                   '%s clears my_reserved but the handler does not raise its forwarding flag afterwards (%s): the forwarder stopped at the '
+                   'reserved item and nothing starts it again - the kept item is never offered to the successors' % ((d or {}).get('n'), wit),
+                   ln=node.get('ln'), key_extra='unreserve|%s' % (d or {}).get('n'))
+    if n < 2:
+        raise AnalysisBroken('buffer_node::handle_operations_impl: operations that clear my_reserved: %d (expected release and consume)' % n)
